@@ -7,8 +7,11 @@
 // finite differences of the returned functions.  Every function is called with `double` and with
 // Opm::DenseAd::Evaluation arguments, for every region index.
 //
-// The Oil/Gas/Water PVT multiplexers are not driven: co2tables.inc / h2tables.inc are empty in this
-// sandbox and the multiplexers do not link (DESIGN.md section 7).
+// The Oil/Gas/Water PVT multiplexers are driven on a second deck that holds exactly one oil and one gas keyword
+// (their dispatch depends on which tables are present): approach, region count and node values.
+// co2tables.inc / h2tables.inc are empty in this sandbox (DESIGN.md section 7), so the four CO2/H2 table-traits
+// objects the multiplexers pull in are defined here as weak, zero-filled symbols solely to make them link; no
+// value is ever read from them (the generated decks never select a CO2/H2 approach).
 #include <config.h>
 
 #include <opm/input/eclipse/Parser/Parser.hpp>
@@ -24,6 +27,12 @@
 #include <opm/material/fluidsystems/blackoilpvt/ConstantCompressibilityWaterPvt.hpp>
 #include <opm/material/fluidsystems/blackoilpvt/ConstantCompressibilityOilPvt.hpp>
 
+#include <opm/material/fluidsystems/blackoilpvt/OilPvtMultiplexer.hpp>
+#include <opm/material/fluidsystems/blackoilpvt/GasPvtMultiplexer.hpp>
+#include <opm/material/fluidsystems/blackoilpvt/WaterPvtMultiplexer.hpp>
+#include <opm/material/components/CO2Tables.hpp>
+#include <opm/material/components/H2.hpp>
+
 #include <opm/material/densead/Evaluation.hpp>
 #include <opm/material/densead/Math.hpp>
 
@@ -34,6 +43,21 @@
 #include <type_traits>
 
 using vh::Rng;
+
+// link-only stand-ins for the emptied co2tables.inc / h2tables.inc (weak: real definitions win if they exist)
+#define C14_TABLE_STUB(T)                                        \
+    __attribute__((weak)) const char* T::name = "c14-link-stub"; \
+    __attribute__((weak)) const double T::xMin = 0.0;            \
+    __attribute__((weak)) const double T::xMax = 1.0;            \
+    __attribute__((weak)) const double T::yMin = 0.0;            \
+    __attribute__((weak)) const double T::yMax = 1.0;            \
+    __attribute__((weak)) const double T::vals[200][500] = {};
+namespace Opm {
+C14_TABLE_STUB(co2TabulatedDensityTraits)
+C14_TABLE_STUB(co2TabulatedEnthalpyTraits)
+C14_TABLE_STUB(H2TabulatedDensityTraits)
+C14_TABLE_STUB(H2TabulatedEnthalpyTraits)
+}
 
 // ---------------------------------------------------------------------------------------------
 // unit systems: factors deck unit -> SI, written down here independently of opm/input/eclipse/Units
@@ -80,7 +104,10 @@ struct Case {
     std::vector<PvdTab> pvdo, pvdg;
     std::vector<CcTab> pvtw, pvcdo;
     std::vector<std::array<double, 3>> density;
-    std::string deck;
+    std::string deck;      // all six keywords: drives the concrete classes
+    int muxOil = 0;        // 0 PVTO, 1 PVDO, 2 PVCDO
+    int muxGas = 0;        // 0 PVTG, 1 PVDG
+    std::string muxDeck;   // PVTW + one oil keyword + one gas keyword: drives the multiplexers
 };
 
 static int undersatCount(Rng& rng, bool last) {
@@ -229,18 +256,23 @@ static Case genCase(Rng& rng, long idx) {
         cs.pvcdo.push_back(genCc(rng, u, true));
         cs.density.push_back({num(rng.uniform(700, 900) / u.dens), num(rng.uniform(990, 1100) / u.dens), num(rng.uniform(0.7, 1.3) / u.dens)});
     }
-    std::ostringstream o;
-    o << "RUNSPEC\nDIMENS\n 1 1 1 /\nOIL\nGAS\nWATER\nDISGAS\nVAPOIL\n" << u.name << "\nTABDIMS\n 1 " << cs.nreg
-      << " 20 30 1 30 /\nGRID\nDX\n 1 /\nDY\n 1 /\nDZ\n 1 /\nTOPS\n 1 /\nPORO\n 0.2 /\nPERMX\n 1 /\nPROPS\nDENSITY\n";
-    for (const auto& d : cs.density) o << " " << txt(d[0]) << " " << txt(d[1]) << " " << txt(d[2]) << " /\n";
-    writeCc(o, "PVTW", cs.pvtw);
-    writeCc(o, "PVCDO", cs.pvcdo);
-    writePvd(o, "PVDO", cs.pvdo);
-    writePvd(o, "PVDG", cs.pvdg);
-    writePvtx(o, "PVTO", cs.pvto);
-    writePvtx(o, "PVTG", cs.pvtg);
-    o << "SOLUTION\nSCHEDULE\n";
-    cs.deck = o.str();
+    cs.muxOil = (int)rng.below(3);
+    cs.muxGas = (int)rng.below(2);
+    for (int which = 0; which < 2; ++which) {
+        const bool mux = which == 1;
+        std::ostringstream o;
+        o << "RUNSPEC\nDIMENS\n 1 1 1 /\nOIL\nGAS\nWATER\nDISGAS\nVAPOIL\n" << u.name << "\nTABDIMS\n 1 " << cs.nreg
+          << " 20 30 1 30 /\nGRID\nDX\n 1 /\nDY\n 1 /\nDZ\n 1 /\nTOPS\n 1 /\nPORO\n 0.2 /\nPERMX\n 1 /\nPROPS\nDENSITY\n";
+        for (const auto& d : cs.density) o << " " << txt(d[0]) << " " << txt(d[1]) << " " << txt(d[2]) << " /\n";
+        writeCc(o, "PVTW", cs.pvtw);
+        if (!mux || cs.muxOil == 2) writeCc(o, "PVCDO", cs.pvcdo);
+        if (!mux || cs.muxOil == 1) writePvd(o, "PVDO", cs.pvdo);
+        if (!mux || cs.muxGas == 1) writePvd(o, "PVDG", cs.pvdg);
+        if (!mux || cs.muxOil == 0) writePvtx(o, "PVTO", cs.pvto);
+        if (!mux || cs.muxGas == 0) writePvtx(o, "PVTG", cs.pvtg);
+        o << "SOLUTION\nSCHEDULE\n";
+        (mux ? cs.muxDeck : cs.deck) = o.str();
+    }
     return cs;
 }
 
@@ -261,16 +293,18 @@ struct Checker {
     std::string kw;
     int region = 0;
     long comparisons = 0;
+    const std::string* deckInUse = nullptr;
 
     std::string where() const { return kw + " region " + std::to_string(region + 1) + " (" + UNITS[cs.unit].name + ")"; }
     void fail(const std::string& key, const std::string& what) {
-        rep.violation(key, where() + ": " + what, what + "\n" + where() + "\n" + cs.deck);
+        rep.violation(key, where() + ": " + what, what + "\n" + where() + "\n" + (deckInUse ? *deckInUse : cs.deck));
     }
     // got == ref within rtol (relative)
-    void close(const std::string& key, const std::string& group, const std::string& what, double got, double ref, double rtol) {
+    // `floor_`: magnitude below which the difference is taken as absolute (for tabulated zeros)
+    void close(const std::string& key, const std::string& group, const std::string& what, double got, double ref, double rtol, double floor_ = 0.0) {
         ++comparisons;
         rep.cover("comparisons", group);
-        double e = vh::reldiff(got, ref);
+        double e = vh::reldiff(got, ref, floor_);
         if (std::isfinite(e)) rep.maxof("max_rel_err:" + group, e);
         if (!(e <= rtol)) {
             std::ostringstream o; o.precision(17);
@@ -316,39 +350,52 @@ struct Checker {
         return r;
     }
 
-    // AD derivative with respect to one argument against a central difference of the returned function.
-    // g: double -> double is the function restricted to that argument, `scale` the size of the table range in
-    // that argument.  A point is "away from kinks" when the central differences with steps h and 2h agree.
-    template <class G> void slope(const std::string& fn, const char* arg, G&& g, double x, double scale, double ad, double fval) {
-        const double h = 2e-5 * scale;
-        const double d1 = (g(x + h) - g(x - h)) / (2 * h);
-        const double d2 = (g(x + 2 * h) - g(x - 2 * h)) / (4 * h);
-        // rounding of the difference quotient is ~ 1e-16 |f| / h = 5e-12 |f| / scale
-        const double floor_ = 1e-9 * std::fabs(fval) / scale;
-        if (!std::isfinite(d1) || !std::isfinite(d2) || !std::isfinite(ad) ||
-            std::fabs(d1 - d2) > 1e-6 * std::max(std::fabs(d1), std::fabs(d2)) + floor_) {
+    // AD derivative with respect to one argument against finite differences of the returned function.
+    // g: double -> double is the function restricted to that argument, `xs` the magnitude of that argument
+    // (step h = 4e-6 xs).  From g(x-2h) .. g(x+2h):
+    //   dl, dr  second-order one-sided differences to the left / to the right of x,
+    //   dc      fourth-order central difference.
+    // The point is "away from kinks" when dl and dr agree: a kink at x itself (invisible to central differences,
+    // which return the mean of both slopes whatever the step) or anywhere inside [x-2h, x+2h] makes them differ
+    // by the jump of the slope.  Accepting |dl-dr| <= 2e-6 bounds the kink-induced part of |AD - dc| by 1e-6.
+    template <class G> void slope(const std::string& fn, const char* arg, G&& g, double x, double xs, double ad, double fval) {
+        const double h = 4e-6 * xs;
+        const double gm2 = g(x - 2 * h), gm1 = g(x - h), g0 = g(x), gp1 = g(x + h), gp2 = g(x + 2 * h);
+        const double dl = (3 * g0 - 4 * gm1 + gm2) / (2 * h);
+        const double dr = (-3 * g0 + 4 * gp1 - gp2) / (2 * h);
+        const double dc = (8 * (gp1 - gm1) - (gp2 - gm2)) / (12 * h);
+        // rounding of the quotients is ~ 4e-16 |f| / h = 1e-10 |f| / xs
+        const double floor_ = 2e-9 * std::fabs(fval) / xs;
+        if (!std::isfinite(ad)) {
+            std::ostringstream o; o.precision(17);
+            o << fn << ": derivative with respect to " << arg << " at " << x << " is not finite";
+            fail("ad-derivative:" + kw + ":" + fn + ":nonfinite", o.str());
+            return;
+        }
+        // (dc must agree with both as well: where a linearly extrapolated table value is the small difference of two
+        // large terms, the rounding noise of g is far above 1e-16 |g| and the three quotients scatter)
+        const double spread = std::max(std::fabs(dl - dr), std::max(std::fabs(dc - dl), std::fabs(dc - dr)));
+        if (!std::isfinite(dl) || !std::isfinite(dr) || !std::isfinite(dc) ||
+            spread > 2e-6 * std::max(std::fabs(dl), std::fabs(dr)) + floor_) {
             rep.count("ad_points_skipped_near_kink");
-            if (!std::isfinite(ad)) {
-                std::ostringstream o; o.precision(17);
-                o << fn << ": derivative with respect to " << arg << " at " << x << " is not finite";
-                fail("ad-derivative:" + kw + ":" + fn + ":nonfinite", o.str());
-            }
             return;
         }
         ++comparisons;
         rep.cover("comparisons", "ad-derivative");
         rep.count("ad_derivative_comparisons");
-        double err = std::fabs(ad - d1), tol = 1e-5 * std::max(std::fabs(ad), std::fabs(d1)) + floor_;
-        if (std::max(std::fabs(ad), std::fabs(d1)) > 0) rep.maxof("max_rel_err:ad-derivative", err / (std::max(std::fabs(ad), std::fabs(d1)) + floor_));
-        if (d1 != 0.0) rep.count("ad_derivative_nonzero");
+        const double big = std::max(std::fabs(ad), std::fabs(dc));
+        const double err = std::fabs(ad - dc), tol = 1e-5 * big + floor_;
+        if (big > 0) rep.maxof("max_rel_err:ad-derivative", err / (big + floor_));
+        if (dc != 0.0) rep.count("ad_derivative_nonzero");
         if (!(err <= tol)) {
             std::ostringstream o; o.precision(17);
             o << fn << ": derivative with respect to " << arg << " at " << arg << " = " << x << " is " << ad
-              << ", central finite difference of the returned function is " << d1 << " (step " << h << ")";
+              << ", finite difference of the returned function is " << dc << " (step " << h << ", one-sided " << dl << " / " << dr << ")";
             fail("ad-derivative:" + kw + ":" + fn, o.str());
         }
     }
     // value with both argument kinds + both partial derivatives against finite differences
+    // (sa, sb: magnitudes of the two arguments, see slope(); sb == 0: the second argument is not differentiated)
     template <class F> Val full(const char* fn, F&& f, double a, double sa, double b, double sb) {
         Val r = both(fn, f, a, b);
         slope(fn, "argument 1", [&](double x) { return (double)f(x, b); }, a, sa, r.d0, r.v);
@@ -418,7 +465,7 @@ static void checkLive(Checker& c, Rng& rng, const Pvt&, const PvtxTab& t, bool o
                 Val sr = c.both(oil ? "saturatedGasDissolutionFactor" : "saturatedOilVaporizationFactor", fSatR, p, 0.0);
                 c.close("node-value:" + K + ":" + Bn + "-saturated", "node-value", std::string("saturated ") + Bn + " at " + w.str(), 1.0 / sb.v, sat[i].B, 1e-7);
                 c.close("node-value:" + K + ":" + Mn + "-saturated", "node-value", std::string("saturated ") + Mn + " at " + w.str(), sm.v, sat[i].mu, 1e-7);
-                c.close("node-value:" + K + ":" + Rn, "node-value", std::string("saturated ") + Rn + " at " + w.str(), sr.v, sat[i].R, 1e-7);
+                c.close("node-value:" + K + ":" + Rn, "node-value", std::string("saturated ") + Rn + " at " + w.str(), sr.v, sat[i].R, 1e-7, Rmax);   // a tabulated Rs = 0 is compared on the scale of the table
                 c.close("continuity:" + K + ":" + Bn + ":node", "continuity-node", std::string(Bn) + " of the undersaturated branch vs saturated curve at " + w.str(), 1.0 / vb.v, 1.0 / sb.v, 1e-9);
                 c.close("continuity:" + K + ":" + Mn + ":node", "continuity-node", std::string(Mn) + " of the undersaturated branch vs saturated curve at " + w.str(), vm.v, sm.v, 1e-9);
             }
@@ -427,8 +474,8 @@ static void checkLive(Checker& c, Rng& rng, const Pvt&, const PvtxTab& t, bool o
                 const double p2 = pOf(b, b.rows[k + 1]), R2 = ROf(b, b.rows[k + 1]);
                 const double s = rng.uniform(0.02, 0.98);
                 const double pm = p * (1 - s) + p2 * s, Rm = R * (1 - s) + R2 * s;
-                Val mb = c.full("inverseFormationVolumeFactor", fInvB, pm, pSpan, Rm, 0.0);
-                Val mm = c.full("viscosity", fMu, pm, pSpan, Rm, 0.0);
+                Val mb = c.full("inverseFormationVolumeFactor", fInvB, pm, pm, Rm, 0.0);
+                Val mm = c.full("viscosity", fMu, pm, pm, Rm, 0.0);
                 std::ostringstream w2; w2.precision(12);
                 w2 << "branch " << i + 1 << " between rows " << k + 1 << " and " << k + 2 << " (p=" << pm << " Pa, " << Rn << "=" << Rm << ")";
                 c.within("bracket:" + K + ":" + Bn, "bracket", std::string(Bn) + " on " + w2.str(), 1.0 / mb.v, b.rows[k].B * bUnit, b.rows[k + 1].B * bUnit);
@@ -445,8 +492,8 @@ static void checkLive(Checker& c, Rng& rng, const Pvt&, const PvtxTab& t, bool o
             const double span = oil ? (mb.rows.back().y - mb.rows[0].y) * u.p : (mb.rows[0].y - mb.rows.back().y) * rUnit;
             double p = sat[i].p, R = sat[i].R;
             if (oil) p += rng.uniform(0.05, 0.95) * span; else R -= rng.uniform(0.05, 0.95) * span;
-            Val eb = c.full("inverseFormationVolumeFactor", fInvB, p, pSpan, R, RRange);
-            Val em = c.full("viscosity", fMu, p, pSpan, R, RRange);
+            Val eb = c.full("inverseFormationVolumeFactor", fInvB, p, p, R, RRange);
+            Val em = c.full("viscosity", fMu, p, p, R, RRange);
             c.rep.count("extended_branch_points");
             if (!std::isfinite(eb.v) || !std::isfinite(em.v)) c.fail("extension-nonfinite:" + K, "non-finite value on an extended branch");
         }
@@ -457,9 +504,9 @@ static void checkLive(Checker& c, Rng& rng, const Pvt&, const PvtxTab& t, bool o
         const double pm = inside(rng, sat[i].p, sat[i + 1].p);
         std::ostringstream w; w.precision(12);
         w << "saturated curve between nodes " << i + 1 << " and " << i + 2 << " (p=" << pm << " Pa)";
-        Val sb = c.full("saturatedInverseFormationVolumeFactor", fSatInvB, pm, pRange, 0.0, 0.0);
-        Val sm = c.full("saturatedViscosity", fSatMu, pm, pRange, 0.0, 0.0);
-        Val sr = c.full(oil ? "saturatedGasDissolutionFactor" : "saturatedOilVaporizationFactor", fSatR, pm, pRange, 0.0, 0.0);
+        Val sb = c.full("saturatedInverseFormationVolumeFactor", fSatInvB, pm, pm, 0.0, 0.0);
+        Val sm = c.full("saturatedViscosity", fSatMu, pm, pm, 0.0, 0.0);
+        Val sr = c.full(oil ? "saturatedGasDissolutionFactor" : "saturatedOilVaporizationFactor", fSatR, pm, pm, 0.0, 0.0);
         c.within("bracket:" + K + ":" + Bn + "-saturated", "bracket", std::string(Bn) + " on the " + w.str(), 1.0 / sb.v, sat[i].B, sat[i + 1].B);
         c.within("bracket:" + K + ":" + Mn + "-saturated", "bracket", std::string(Mn) + " on the " + w.str(), sm.v, sat[i].mu, sat[i + 1].mu);
         c.within("bracket:" + K + ":" + Rn, "bracket", std::string(Rn) + " on the " + w.str(), sr.v, sat[i].R, sat[i + 1].R);
@@ -480,7 +527,8 @@ static void checkLive(Checker& c, Rng& rng, const Pvt&, const PvtxTab& t, bool o
                 Val ps = c.full("saturationPressure", fPSat, sr.v, RRange, 0.0, 0.0);
                 std::ostringstream w; w.precision(12);
                 w << "saturationPressure(" << Rn << "sat(p)) for p=" << p << " Pa, " << Rn << "sat=" << sr.v;
-                c.close("psat-inverse:" + K + keySuffix, group, w.str(), ps.v, p, 1e-6);
+                // "0 Pa" is what the model's Newton iteration returns when it gives up: keyed apart from a wrong pressure
+                c.close("psat-inverse:" + K + keySuffix + (ps.v == 0.0 ? ":gave-up-zero" : ""), group, w.str(), ps.v, p, 1e-6);
             } catch (const std::exception& e) {
                 std::ostringstream w; w.precision(12);
                 w << "saturationPressure(" << sr.v << ") threw for p=" << p << " Pa: " << std::string(e.what()).substr(0, 200);
@@ -504,18 +552,18 @@ static void checkLive(Checker& c, Rng& rng, const Pvt&, const PvtxTab& t, bool o
     for (int k = 0; k < 6; ++k) {
         double p = rng.uniform(sat[0].p - 0.2 * pSpan, sat[0].p + 1.3 * pSpan);
         double R = rng.uniform(Rmin - 0.1 * RRange, Rmax + 0.3 * RRange);
-        if (p <= 0) p = sat[0].p * rng.uniform(0.3, 1.0);
+        if (p < 0.3 * sat[0].p) p = sat[0].p * rng.uniform(0.3, 1.0);
         c.rep.cover("ad_point_location", (p < sat[0].p || p > pMaxAll || R < Rmin || R > Rmax) ? "beyond-table-range" : "inside-table-range");
-        Val vb = c.full("inverseFormationVolumeFactor", fInvB, p, pSpan, R, RRange);
-        Val vm = c.full("viscosity", fMu, p, pSpan, R, RRange);
+        Val vb = c.full("inverseFormationVolumeFactor", fInvB, p, p, R, RRange);
+        Val vm = c.full("viscosity", fMu, p, p, R, RRange);
         (void)vb; (void)vm;
     }
     for (int k = 0; k < 3; ++k) {
         double p = rng.uniform(sat[0].p - 0.2 * pRange, sat[n - 1].p + 0.4 * pRange);
-        if (p <= 0) p = sat[0].p * rng.uniform(0.3, 1.0);
-        c.full("saturatedInverseFormationVolumeFactor", fSatInvB, p, pRange, 0.0, 0.0);
-        c.full("saturatedViscosity", fSatMu, p, pRange, 0.0, 0.0);
-        c.full(oil ? "saturatedGasDissolutionFactor" : "saturatedOilVaporizationFactor", fSatR, p, pRange, 0.0, 0.0);
+        if (p < 0.3 * sat[0].p) p = sat[0].p * rng.uniform(0.3, 1.0);
+        c.full("saturatedInverseFormationVolumeFactor", fSatInvB, p, p, 0.0, 0.0);
+        c.full("saturatedViscosity", fSatMu, p, p, 0.0, 0.0);
+        c.full(oil ? "saturatedGasDissolutionFactor" : "saturatedOilVaporizationFactor", fSatR, p, p, 0.0, 0.0);
     }
 }
 
@@ -551,20 +599,20 @@ static void checkDead(Checker& c, Rng& rng, const PvdTab& t, bool oil, InvB&& in
         if (k + 1 < n) {
             const double pm = inside(rng, p, t.rows[k + 1].y * u.p);
             std::ostringstream w2; w2.precision(12); w2 << "between rows " << k + 1 << " and " << k + 2 << " (p=" << pm << " Pa)";
-            Val mb = c.full("inverseFormationVolumeFactor", fInvB, pm, pRange, anyR, 100.0);
-            Val mm = c.full("viscosity", fMu, pm, pRange, anyR, 100.0);
+            Val mb = c.full("inverseFormationVolumeFactor", fInvB, pm, pm, anyR, 100.0);
+            Val mm = c.full("viscosity", fMu, pm, pm, anyR, 100.0);
             c.within("bracket:" + K + ":" + Bn, "bracket", std::string(Bn) + " " + w2.str(), 1.0 / mb.v, t.rows[k].B * bUnit, t.rows[k + 1].B * bUnit);
             c.within("bracket:" + K + ":" + Mn, "bracket", std::string(Mn) + " " + w2.str(), mm.v, t.rows[k].mu * u.visc, t.rows[k + 1].mu * u.visc);
         }
     }
     for (int k = 0; k < 3; ++k) {
         double p = rng.uniform(t.rows[0].y * u.p - 0.2 * pRange, t.rows[n - 1].y * u.p + 0.4 * pRange);
-        if (p <= 0) p = t.rows[0].y * u.p * rng.uniform(0.3, 1.0);
+        if (p < 0.3 * t.rows[0].y * u.p) p = t.rows[0].y * u.p * rng.uniform(0.3, 1.0);
         c.rep.cover("ad_point_location", (p < t.rows[0].y * u.p || p > t.rows[n - 1].y * u.p) ? "beyond-table-range" : "inside-table-range");
-        c.full("inverseFormationVolumeFactor", fInvB, p, pRange, anyR, 100.0);
-        c.full("viscosity", fMu, p, pRange, anyR, 100.0);
-        c.full("saturatedInverseFormationVolumeFactor", fSatInvB, p, pRange, 0.0, 0.0);
-        c.full("saturatedViscosity", fSatMu, p, pRange, 0.0, 0.0);
+        c.full("inverseFormationVolumeFactor", fInvB, p, p, anyR, 100.0);
+        c.full("viscosity", fMu, p, p, anyR, 100.0);
+        c.full("saturatedInverseFormationVolumeFactor", fSatInvB, p, p, 0.0, 0.0);
+        c.full("saturatedViscosity", fSatMu, p, p, 0.0, 0.0);
     }
 }
 
@@ -592,14 +640,53 @@ static void checkConstCompr(Checker& c, Rng& rng, const CcTab& t, InvB&& invB, M
         const double muExp = t.bref * muref / (1.0 + Y + 0.5 * Y * Y) / Bexp;
         std::ostringstream w; w.precision(12); w << (k == 0 ? "at the reference pressure" : "off the reference pressure") << " (p=" << p << " Pa, pref=" << pref << " Pa)";
         c.rep.cover(K + "_pressure", k == 0 ? "reference" : (p < pref ? "below" : "above"));
-        Val vb = c.full("inverseFormationVolumeFactor", fInvB, p, pref, anyR, 100.0);
-        Val vm = c.full("viscosity", fMu, p, pref, anyR, 100.0);
-        Val sb = c.full("saturatedInverseFormationVolumeFactor", fSatInvB, p, pref, 0.0, 0.0);
-        Val sm = c.full("saturatedViscosity", fSatMu, p, pref, 0.0, 0.0);
+        Val vb = c.full("inverseFormationVolumeFactor", fInvB, p, p, anyR, 100.0);
+        Val vm = c.full("viscosity", fMu, p, p, anyR, 100.0);
+        Val sb = c.full("saturatedInverseFormationVolumeFactor", fSatInvB, p, p, 0.0, 0.0);
+        Val sm = c.full("saturatedViscosity", fSatMu, p, p, 0.0, 0.0);
         c.close("closed-form:" + K + ":B", "closed-form", "B " + w.str(), 1.0 / vb.v, Bexp, 1e-7);
         c.close("closed-form:" + K + ":mu", "closed-form", "mu " + w.str(), vm.v, muExp, 1e-7);
         c.close("closed-form:" + K + ":B-saturated", "closed-form", "saturated B " + w.str(), 1.0 / sb.v, Bexp, 1e-7);
         c.close("closed-form:" + K + ":mu-saturated", "closed-form", "saturated mu " + w.str(), sm.v, muExp, 1e-7);
+    }
+}
+
+// ---------------------------------------------------------------------------------------------
+// multiplexers: the table nodes (closed forms for PVTW / PVCDO) seen through the dispatching classes
+// ---------------------------------------------------------------------------------------------
+struct MuxNode { double p, R, B, mu; };   // SI
+
+static std::vector<MuxNode> nodesOf(const PvtxTab& t, bool oil, const Units& u) {
+    std::vector<MuxNode> v;
+    for (const auto& b : t.br) for (const auto& r : b.rows)
+        v.push_back(oil ? MuxNode{r.y * u.p, b.x * u.rs, r.B, r.mu * u.visc} : MuxNode{b.x * u.p, r.y * u.rv, r.B * u.rv, r.mu * u.visc});
+    return v;
+}
+static std::vector<MuxNode> nodesOf(const PvdTab& t, bool oil, const Units& u) {
+    std::vector<MuxNode> v;
+    for (const auto& r : t.rows) v.push_back({r.y * u.p, 0.0, r.B * (oil ? 1.0 : u.rv), r.mu * u.visc});
+    return v;
+}
+static std::vector<MuxNode> nodesOf(const CcTab& t, const Units& u) {
+    std::vector<MuxNode> v;
+    const double pref = t.pref * u.p, C = t.c / u.p, Cv = t.cv / u.p;
+    for (double f : {1.0, 0.4, 1.7}) {
+        const double p = pref * f, X = C * (p - pref), Y = (C - Cv) * (p - pref);
+        const double B = t.bref / (1.0 + X + 0.5 * X * X);
+        v.push_back({p, 0.0, B, t.bref * t.mu * u.visc / (1.0 + Y + 0.5 * Y * Y) / B});
+    }
+    return v;
+}
+template <class InvB, class Mu>
+static void checkMuxNodes(Checker& c, const std::vector<MuxNode>& nodes, InvB&& invB, Mu&& mu) {
+    auto fInvB = [&](const auto& p, const auto& R) { return invB(p, R); };
+    auto fMu = [&](const auto& p, const auto& R) { return mu(p, R); };
+    for (const auto& nd : nodes) {
+        std::ostringstream w; w.precision(12); w << "p=" << nd.p << " Pa, R=" << nd.R;
+        Val vb = c.both("inverseFormationVolumeFactor", fInvB, nd.p, nd.R);
+        Val vm = c.both("viscosity", fMu, nd.p, nd.R);
+        c.close("mux-node-value:" + c.kw + ":B", "multiplexer-node-value", "B through the multiplexer at " + w.str(), 1.0 / vb.v, nd.B, 1e-7);
+        c.close("mux-node-value:" + c.kw + ":mu", "multiplexer-node-value", "mu through the multiplexer at " + w.str(), vm.v, nd.mu, 1e-7);
     }
 }
 
@@ -730,10 +817,80 @@ int main(int argc, char** argv) {
             }
         });
 
+        // ---- the multiplexers on the deck with one oil and one gas keyword -----------------------
+        c.deckInUse = &cs.muxDeck;
+        static const char* OILKW[] = {"PVTO", "PVDO", "PVCDO"};
+        static const char* GASKW[] = {"PVTG", "PVDG"};
+        const Units& u = UNITS[cs.unit];
+        bool muxDeckOk = true;
+        try {
+            auto deck = parser.parseString(cs.muxDeck);
+            es = std::make_unique<Opm::EclipseState>(deck);
+            sched = std::make_unique<Opm::Schedule>(deck, *es, python);
+        } catch (const std::exception& e) {
+            muxDeckOk = false; allInit = false;
+            c.kw = "deck";
+            c.fail("deck-refused", std::string("valid deck refused: ") + std::string(e.what()).substr(0, 300));
+        }
+        if (muxDeckOk) {
+            guarded(std::string("mux:") + OILKW[cs.muxOil], [&] {
+                Opm::OilPvtMultiplexer<double> pvt;
+                pvt.initFromState(*es, *sched);
+                static const Opm::OilPvtApproach expect[] = {Opm::OilPvtApproach::LiveOil, Opm::OilPvtApproach::DeadOil, Opm::OilPvtApproach::ConstantCompressibilityOil};
+                rep.cover("multiplexer_approach", std::string("oil:") + OILKW[cs.muxOil]);
+                if (pvt.approach() != expect[cs.muxOil]) {
+                    c.fail(std::string("mux-approach:") + OILKW[cs.muxOil], "OilPvtMultiplexer chose approach " + std::to_string((int)pvt.approach()));
+                    return;
+                }
+                if ((int)pvt.numRegions() != cs.nreg) c.fail("num-regions:" + c.kw, "numRegions() = " + std::to_string(pvt.numRegions()));
+                for (int r = 0; r < cs.nreg; ++r) {
+                    c.region = r;
+                    auto nodes = cs.muxOil == 0 ? nodesOf(cs.pvto[r], true, u) : cs.muxOil == 1 ? nodesOf(cs.pvdo[r], true, u) : nodesOf(cs.pvcdo[r], u);
+                    checkMuxNodes(c, nodes,
+                                  [&](const auto& p, const auto& R) { return pvt.inverseFormationVolumeFactor(r, tempOf(p), p, R); },
+                                  [&](const auto& p, const auto& R) { return pvt.viscosity(r, tempOf(p), p, R); });
+                }
+            });
+            guarded(std::string("mux:") + GASKW[cs.muxGas], [&] {
+                Opm::GasPvtMultiplexer<double> pvt;
+                pvt.initFromState(*es, *sched);
+                static const Opm::GasPvtApproach expect[] = {Opm::GasPvtApproach::WetGas, Opm::GasPvtApproach::DryGas};
+                rep.cover("multiplexer_approach", std::string("gas:") + GASKW[cs.muxGas]);
+                if (pvt.gasPvtApproach() != expect[cs.muxGas]) {
+                    c.fail(std::string("mux-approach:") + GASKW[cs.muxGas], "GasPvtMultiplexer chose approach " + std::to_string((int)pvt.gasPvtApproach()));
+                    return;
+                }
+                if ((int)pvt.numRegions() != cs.nreg) c.fail("num-regions:" + c.kw, "numRegions() = " + std::to_string(pvt.numRegions()));
+                for (int r = 0; r < cs.nreg; ++r) {
+                    c.region = r;
+                    auto nodes = cs.muxGas == 0 ? nodesOf(cs.pvtg[r], false, u) : nodesOf(cs.pvdg[r], false, u);
+                    checkMuxNodes(c, nodes,
+                                  [&](const auto& p, const auto& R) { return pvt.inverseFormationVolumeFactor(r, tempOf(p), p, R, zeroOf(p)); },
+                                  [&](const auto& p, const auto& R) { return pvt.viscosity(r, tempOf(p), p, R, zeroOf(p)); });
+                }
+            });
+            guarded("mux:PVTW", [&] {
+                Opm::WaterPvtMultiplexer<double> pvt;
+                pvt.initFromState(*es, *sched);
+                rep.cover("multiplexer_approach", "water:PVTW");
+                if (pvt.approach() != Opm::WaterPvtApproach::ConstantCompressibilityWater) {
+                    c.fail("mux-approach:PVTW", "WaterPvtMultiplexer chose approach " + std::to_string((int)pvt.approach()));
+                    return;
+                }
+                if ((int)pvt.numRegions() != cs.nreg) c.fail("num-regions:" + c.kw, "numRegions() = " + std::to_string(pvt.numRegions()));
+                for (int r = 0; r < cs.nreg; ++r) {
+                    c.region = r;
+                    checkMuxNodes(c, nodesOf(cs.pvtw[r], u),
+                                  [&](const auto& p, const auto& R) { return pvt.inverseFormationVolumeFactor(r, tempOf(p), p, R, zeroOf(p)); },
+                                  [&](const auto& p, const auto& R) { return pvt.viscosity(r, tempOf(p), p, R, zeroOf(p)); });
+                }
+            });
+        }
+
         rep.count("comparisons", c.comparisons);
         rep.count("tables", 6L * cs.nreg);
         // non-trivial: the deck was accepted, all six models were initialised and evaluated
-        rep.case_done(vh::fnv(cs.deck), allInit && c.comparisons >= 100);
+        rep.case_done(vh::fnv(cs.muxDeck, vh::fnv(cs.deck)), allInit && c.comparisons >= 100);
     });
     rep.finish();
     return 0;
